@@ -121,7 +121,7 @@ def vocab_for(d):
         toks += [("tag", t) for t in s["tags"]]
         if s["pvals"]:
             toks.append(("str", s["pvals"][0]))
-    toks += [("tag", ":bogus"), ("str", "a"), ("str", "zz"), ("num", "5"), ("lb", ""), ("rb", ""), ("comma", ""), ("semi", "")]
+    toks += [("tag", ":bogus"), ("str", "a"), ("ml", "@dotline"), ("num", "5"), ("lb", ""), ("rb", ""), ("comma", ""), ("semi", "")]
     seen, out = set(), []
     for t in toks:
         if t not in seen:
